@@ -50,8 +50,10 @@ ObjComplaints(m, ob, involved, e) ==
       c04 ==
            When(SumSeq(ob.lens) > hole, {<<"C04", "the stable view extends past the earliest pending placeholder">>})
       \cup When(ob.pending # B(m.pend # {}), {<<"C04", "has_pending_backrefs wrong">>})
-      \cup When(ob.iovs_ok # B(m.pend = {}) \/ ob.flat_ok # B(m.pend = {}),
-                {<<"C04", "iovs / flatten report success although a placeholder is pending (or failure although none is)">>})
+      \cup When(ob.iovs_ok # B(m.pend = {}) \/ ob.flat_ok # B(m.pend = {}) \/ ob.stable_ok # B(m.pend = {}),
+                {<<"C04", "iovs / flatten / stable_consumer report success although a placeholder is pending (or failure although none is)">>})
+      \cup When(ob.stable_ok = 1 /\ (ob.stable_same # 1 \/ ob.stable_n # Len(ob.lens)),
+                {<<"C04", "StableIovec's view (iovs / flatten / flatten_into) differs from the OwningIovec's">>})
       \cup When(m.pend = {} /\ SumSeq(ob.lens) # nbuf, {<<"C04", "no placeholder pending but not every buffered byte is consumable">>})
       c05 ==
            When(ob.dangling > 0 \/ \E i \in 1..Len(ob.cls) : ob.cls[i][1] = -2,
